@@ -2,6 +2,8 @@ package checks
 
 import (
 	"fmt"
+
+	"go.uber.org/dig"
 	"regexp"
 	"sort"
 	"strings"
@@ -281,9 +283,18 @@ func c06Units(tier string) []Unit {
 		tag := fmt.Sprintf("/defer=%v", def)
 		// 1. invalid functions / options / tags / duplicates over a small context
 		sc2 := []int{0, 1}
-		a := alpha{scopes: sc2, ctors: []*uFunc{pA, pB, rNoRes, rErrOnly, rNameGrp, rBackq, rBadAs, rDup, rDupN, rBadTagP, rBadTagR, infoVariant(rDup), infoVariant(pA)}, export: true,
+		a := alpha{scopes: sc2, ctors: []*uFunc{pA, pB, rNoRes, rErrOnly, rNameGrp, rBackq, rBadAs, rDup, rDupN, rBadTagP, rBadTagR, infoVariant(rDup), infoVariant(pA), rGrpThenDup}, export: true,
 			invokes: []*uFunc{iA, iB}}
-		add("invalid-and-duplicate"+tag, cfg, prefixChild, a, alpha{scopes: sc2, ctors: []*uFunc{pA, pB, pC}, export: true, invokes: []*uFunc{iA, iB, iC}}, d, bud)
+		add("invalid-and-duplicate"+tag, cfg, prefixChild, a, alpha{scopes: sc2, ctors: []*uFunc{pA, pB, pC}, export: true, invokes: []*uFunc{iA, iB, iC, iG}}, d, bud)
+		// values that are not functions at all (rejected before anything is parsed)
+		last := units[len(units)-1].Sc
+		for _, s := range sc2 {
+			for _, k := range []h.OpKind{h.OpProvide, h.OpDecorate} {
+				last.Alphabet = append(last.Alphabet,
+					Op{Kind: k, Scope: s, RawDesc: "nil", Raw: func(*h.Run) (interface{}, []dig.ProvideOption) { return nil, nil }},
+					Op{Kind: k, Scope: s, RawDesc: "42", Raw: func(*h.Run) (interface{}, []dig.ProvideOption) { return 42, nil }})
+			}
+		}
 		// 2. cycles: in the target scope, only in a descendant, through Export; group params
 		ring := alpha{scopes: sc2, ctors: []*uFunc{rAB, rBC, rCA, rSelf, rSelfG, rAgB, rBgC, pC}, export: true,
 			invokes: []*uFunc{iA, iB, iC}}
@@ -319,3 +330,5 @@ func c06Units(tier string) []Unit {
 	add("cycles-late-scope", h.Config{}, nil, late, lateConts, d+1, explore.Budget{Scopes: 1, Provides: 4, Invokes: 1, Rejected: 0})
 	return units
 }
+
+var rGrpThenDup = u.F("rGrpThenDup", "", "{A+g;B}") // a group member declared before a plain value that may clash
